@@ -378,6 +378,59 @@ Definition build_from (n : N) (start : N) (sds : list sdef) : profile :=
   fold_left (fun p sd => add_service p (svc_build sd (svc_template sd))) sds (mkP start start n [] [] []).
 Definition build (start : N) (sds : list sdef) : profile := build_from 0 start sds.
 
+(** * Histories with services assembled by hand
+
+    The construction order of the Python objects is part of the history: service objects
+    are created empty and stay PENDING (not registered) while characteristics are attached
+    to them, descriptors are added to characteristics that are already attached (the
+    service's own end handle is then stale), include definitions are added, in any order and
+    interleaved with the operations on the profile; [HRegister] hands one to add_service. *)
+
+(** [Characteristic.add_descriptor] *)
+Definition chr_add_desc (c : chr) (d : desc) : chr :=
+  let d' := if d_handle d =? 0 then set_d_handle (c_end c + 1) d else d in
+  mkC (c_id c) (c_handle c) (c_vhandle c) (N.max (d_handle d') (c_end c)) (c_uuid c) (c_props c)
+      (c_sec c) (c_value c) (c_descs c ++ [d']).
+
+Fixpoint map_nth {A} (f : A -> A) (n : nat) (l : list A) : list A :=
+  match n, l with
+  | _, [] => []
+  | O, x :: r => f x :: r
+  | S m, x :: r => x :: map_nth f m r
+  end.
+
+Inductive hop :=
+| HNew (primary : bool) (u : uuid)          (* PrimaryService(uuid) / SecondaryService(uuid), pending *)
+| HAttach (i : nat) (cd : cdef)             (* pending[i].add_characteristic(Characteristic(...)) *)
+| HDesc (i j : nat) (dd : ddef)             (* pending[i].characteristics[j].add_descriptor(...) *)
+| HIncl (i : nat) (u : uuid)                (* pending[i].add_included_service(IncludeService(u)) *)
+| HRegister (i : nat)                       (* profile.add_service(pending.pop(i)) *)
+| HOp (o : op).                             (* an operation on the profile *)
+
+Definition hstate := (profile * list svc)%type.
+
+Definition hstep (st : hstate) (h : hop) : outcome * list svc :=
+  let '(p, pend) := st in
+  match h with
+  | HNew pr u => (Done p, pend ++ [empty_svc pr u])
+  | HAttach i cd => (Done p, map_nth (fun s => svc_add_char s (chr_init cd)) i pend)
+  | HDesc i j dd =>
+      (Done p, map_nth (fun s => set_chars s (map_nth (fun c => chr_add_desc c (desc_of_def dd)) j (s_chars s))) i pend)
+  | HIncl i u => (Done p, map_nth (fun s => svc_add_incl s (mkI 0 u)) i pend)
+  | HRegister i => match nth_error pend i with
+                   | Some s => (Done (add_service p s), remove_nth i pend)
+                   | None => (Done p, pend) end
+  | HOp o => (step p o, pend)
+  end.
+
+Fixpoint hrun (st : hstate) (hs : list hop) : outcome * list svc :=
+  match hs with
+  | [] => (Done (fst st), snd st)
+  | h :: r => match hstep st h with
+              | (Done q, pend) => hrun (q, pend) r
+              | (Raised e, pend) => (Raised e, pend) end
+  end.
+
 (** * Observation: the attribute database with every reference resolved *)
 
 Inductive attr :=
@@ -696,6 +749,28 @@ Definition check_case (c : ccase) : bool :=
             end
      end.
 
+(** A history case: class definitions, the history, what the profile showed after the build
+    and after EVERY step, the final attributes. *)
+Fixpoint hrun_check (st : hstate) (hs : list hop) (obs : list lightobs) : option profile :=
+  match hs, obs with
+  | [], [] => Some (fst st)
+  | h :: r, ob :: obr =>
+      match hstep st h with
+      | (Done q, pend) => if light_eqb q ob then hrun_check (q, pend) r obr else None
+      | (Raised _, _) => None
+      end
+  | _, _ => None
+  end.
+
+Definition check_hcase (c : N * list sdef * list hop * lightobs * list lightobs * list (N * attr)) : bool :=
+  let '(start, defs, hs, ob0, obs, final) := c in
+  let p0 := build start defs in
+  light_eqb p0 ob0
+  && match hrun_check (p0, []) hs obs with
+     | None => false
+     | Some p => list_eqb entry_eqb (dump p) final
+     end.
+
 (** SecurityAccess conversions alone: (accesses, int observed, accesses observed back, int again) *)
 Definition check_sec (c : list access * N * list access * N) : bool :=
   let '(l, n, back, n2) := c in
@@ -776,6 +851,8 @@ Definition db_agrees (p : profile) : Prop :=
   /\ Permutation (cmap_view p)
                  (flat_map (fun s => map (fun c => (c_handle c, Some (s_handle s))) (s_chars s)) (p_svcs p))
   /\ NoDup (map fst (p_cmap p)).
+
+Definition hop_no_remove (h : hop) : bool := match h with HOp (OpRemove _) => false | _ => true end.
 
 Definition is_remove (o : op) : bool := match o with OpRemove _ => true | _ => false end.
 Definition no_remove (ops : list op) : bool := forallb (fun o => negb (is_remove o)) ops.
